@@ -194,6 +194,9 @@ def exc_code(e: BaseException) -> int:
     import automata.pda.exceptions as pda_ex
 
     table += [(pda_ex.NondeterminismError, 120), (pda_ex.InvalidAcceptanceModeError, 121)]
+    import automata.tm.exceptions as tm_ex
+
+    table += [(tm_ex.InvalidDirectionError, 130), (tm_ex.InconsistentTapesException, 131)]
     for cls, code in table:
         if isinstance(e, cls):
             return code
